@@ -11,6 +11,8 @@ use ureq_proto::http::Request;
 pub enum Wut {
     Flow(Flow<(), SendBody>),
     Call(Call<WithBody, ()>),
+    /// the send-body state could not be reached (reported as such; every call on it fails)
+    Dead,
 }
 
 #[derive(Clone, Copy, PartialEq, Eq, Debug)]
@@ -42,12 +44,22 @@ pub fn post_request_v(kind: Kind, explicit_te: bool, ver10: bool, variant: usize
     }
     match kind {
         // variant % 7 == 3 (flow API): the length is declared in the Prepare state instead (Flow::header)
-        Kind::Sized(n) if variant % 7 != 3 => b = b.header("content-length", n.to_string()),
+        Kind::Sized(n) if variant % 7 != 3 => {
+            b = b.header("content-length", n.to_string());
+            if variant % 11 == 7 && !ver10 {
+                // a transfer coding other than chunked next to the length: the body is still length-delimited
+                b = b.header("transfer-encoding", ["gzip", "identity", "deflate, gzip"][(variant / 11) % 3]);
+            }
+        }
         Kind::Sized(_) => {}
         Kind::Chunked => {
             if explicit_te {
                 // the coding name is case-insensitive
-                b = b.header("transfer-encoding", ["chunked", "Chunked", "chunked", "CHUNKED", "chunKed"][variant % 5])
+                b = b.header("transfer-encoding", ["chunked", "Chunked", "chunked", "CHUNKED", "chunKed"][variant % 5]);
+                if variant % 11 == 5 {
+                    // a Content-Length next to chunked: the chunked coding wins and the length binds nothing
+                    b = b.header("content-length", ["7", "0", "100000"][(variant / 11) % 3]);
+                }
             }
         }
     }
@@ -68,6 +80,54 @@ impl Wut {
         let req = post_request_v(kind, explicit_te, ver10, variant);
         let despite = matches!(req.method().as_str(), "GET" | "DELETE");
         let mut buf = vec![0u8; 2048];
+        if api == "flow" && variant % 13 == 9 && !ver10 {
+            // the send-body state of a request that follows a redirect: the previous exchange carried its own
+            // Content-Length (and body); this request gets a body despite its method
+            let first = Request::builder().method("POST").uri("http://h.test/first").header("content-length", "3").header("x-first", "1").body(()).unwrap();
+            let f = Flow::new(first).unwrap();
+            let mut rr = {
+                let mut f = f.proceed();
+                for _ in 0..400 {
+                    if f.can_proceed() {
+                        break;
+                    }
+                    f.write(&mut buf).unwrap();
+                }
+                match f.proceed().unwrap().unwrap() {
+                    SendRequestResult::SendBody(mut sb) => {
+                        sb.write(b"abc", &mut buf).unwrap();
+                        sb.proceed().expect("harness: first body sent")
+                    }
+                    _ => panic!("harness: expected SendBody for the first request"),
+                }
+            };
+            rr.try_response(b"HTTP/1.1 302 Found\r\nLocation: /upload\r\nContent-Length: 0\r\n\r\n").unwrap();
+            let mut red = match rr.proceed().unwrap() {
+                ureq_proto::client::flow::RecvResponseResult::Redirect(r) => r,
+                _ => panic!("harness: expected Redirect"),
+            };
+            let mut f0 = red.as_new_flow(ureq_proto::client::flow::RedirectAuthHeaders::Never).unwrap().unwrap();
+            f0.send_body_despite_method();
+            match kind {
+                Kind::Sized(n) => f0.header("content-length", n.to_string()).unwrap(),
+                Kind::Chunked => {
+                    if explicit_te {
+                        f0.header("transfer-encoding", "chunked").unwrap()
+                    }
+                }
+            }
+            let mut f = f0.proceed();
+            for _ in 0..400 {
+                if f.can_proceed() {
+                    break;
+                }
+                f.write(&mut buf).unwrap();
+            }
+            return match f.proceed().unwrap().unwrap() {
+                SendRequestResult::SendBody(f) => Wut::Flow(f),
+                _ => panic!("harness: expected SendBody after the redirect"),
+            };
+        }
         if api == "flow" {
             let mut f0 = Flow::new(req).unwrap();
             if let (Kind::Sized(n), 3) = (kind, variant % 7) {
@@ -120,12 +180,14 @@ impl Wut {
         match self {
             Wut::Flow(f) => guarded(|| f.write(input, out)),
             Wut::Call(c) => guarded(|| c.write(input, out)),
+            Wut::Dead => None,
         }
     }
     pub fn ready(&self) -> bool {
         match self {
             Wut::Flow(f) => guarded(|| f.can_proceed()).unwrap_or(false),
             Wut::Call(c) => guarded(|| c.is_finished()).unwrap_or(false),
+            Wut::Dead => false,
         }
     }
     pub fn has_direct(&self) -> bool {
@@ -135,12 +197,14 @@ impl Wut {
         match self {
             Wut::Flow(f) => guarded(|| f.consume_direct_write(amt)),
             Wut::Call(_) => unreachable!(),
+            Wut::Dead => None,
         }
     }
     pub fn max_input(&mut self, n: usize) -> Option<usize> {
         match self {
             Wut::Flow(f) => guarded(|| f.calculate_max_input(n)),
             Wut::Call(_) => unreachable!(),
+            Wut::Dead => None,
         }
     }
 }
@@ -148,13 +212,24 @@ impl Wut {
 pub fn start_case(t: &mut Tracer, api: &str, kind: Kind, explicit_te: bool, note: &str) -> Wut {
     // every fourth writer belongs to an HTTP/1.0 request (POST exists there too)
     let ver10 = t.cases % 4 == 3;
-    let w = Wut::new_vv(api, kind, explicit_te, ver10, (t.cases / 2) as usize);
+    let variant = (t.cases / 2) as usize;
+    // a failure of the harness's own expectations on the way to the send-body state is data, not a crash
+    let w = guarded(|| Wut::new_vv(api, kind, explicit_te, ver10, variant));
     let (k, n) = match kind {
         Kind::Sized(n) => ("sized", n),
         Kind::Chunked => ("chunked", 0),
     };
-    t.case(json!({"ev":"case","comp":"bw","kind":k,"N":limbs(n),"ready0":w.ready(),"api":api,"note":note,"ver10":ver10}));
-    w
+    match w {
+        Some(w) => {
+            t.case(json!({"ev":"case","comp":"bw","kind":k,"N":limbs(n),"ready0":w.ready(),"api":api,"note":note,"ver10":ver10}));
+            w
+        }
+        None => {
+            t.case(json!({"ev":"case","comp":"bw","kind":k,"N":limbs(n),"ready0":false,"api":api,"note":"send-body state not reached","ver10":ver10}));
+            t.ev(json!({"ev":"stuck","during":"reaching the send-body state of a valid request with a body"}));
+            Wut::Dead
+        }
+    }
 }
 
 #[derive(Default, Clone, Copy)]
@@ -289,6 +364,22 @@ pub fn c03(o: &Opts, t: &mut Tracer) {
                 for &(i, ol) in &finish_tail {
                     ev_write(t, &mut w, kind, &data[..i], ol, WFlags::default());
                 }
+            }
+        }
+    }
+    // (a2) a caller that tries the direct-write path on a chunked body first: refused, and nothing changes
+    for (k, amt) in [0usize, 1, 5, 100000].iter().enumerate() {
+        for before in [0usize, 3] {
+            let mut w = start_case(t, "flow", kind, k % 2 == 0, "direct-on-chunked");
+            t.sig(format!("dwc/{}/{}", amt, before));
+            if before > 0 {
+                ev_write(t, &mut w, kind, &data[..before], 64, WFlags::default());
+            }
+            ev_direct(t, &mut w, *amt);
+            ev_write(t, &mut w, kind, &data[..5], 64, WFlags::default());
+            ev_direct(t, &mut w, *amt);
+            for &(i, ol) in &finish_tail {
+                ev_write(t, &mut w, kind, &data[..i], ol, WFlags::default());
             }
         }
     }
@@ -536,6 +627,12 @@ pub fn c18(o: &Opts, t: &mut Tracer) {
             }
             let mut w = start_case(t, "flow", kind, n % 2 == 0, "mx-write");
             t.sig(format!("mxw/{}/{}", label, n));
+            if n % 3 == 1 {
+                // the bound holds for a writer with a past as well: earlier writes into too little or barely enough room
+                ev_write(t, &mut w, kind, &data[..3], 5 + n % 4, WFlags::default());
+                ev_write(t, &mut w, kind, &data[..2], (n % 5) * 3, WFlags::default());
+                t.class("mx:after-earlier-writes");
+            }
             let m = ev_max(t, &mut w, kind, n);
             if m <= data.len() {
                 ev_write(t, &mut w, kind, &data[..m], n, WFlags { maxprobe: true, ..Default::default() });
@@ -572,7 +669,7 @@ pub fn c19(o: &Opts, t: &mut Tracer) {
             if !seen.insert(inl) {
                 continue;
             }
-            let mut w = start_case(t, api, kind, false, "probe");
+            let mut w = start_case(t, api, kind, (i + inl) % 3 == 1, "probe");
             t.sig(format!("probe/{}/{}", outl, inl));
             ev_write(t, &mut w, kind, &data[..inl], outl, WFlags { probe: true, m, maxprobe: false });
         }
@@ -591,7 +688,7 @@ pub fn c19(o: &Opts, t: &mut Tracer) {
     let firsts: Vec<usize> = if o.quick() { vec![21, 22, 64, 300, 1000, 5000, 10246, 20496] } else { (6..400).step_by(7).chain([1000usize, 4101, 4102, 5000, 10246, 10247, 20496, 30000]).collect() };
     for (j, &first) in firsts.iter().enumerate() {
         for small in 6..=13usize {
-            let mut w = start_case(t, APIS[(j + small) % 2], kind, false, "history");
+            let mut w = start_case(t, APIS[(j + small) % 2], kind, (j + small) % 3 == 0, "history");
             t.sig(format!("history/{}/{}", first, small));
             t.class("w:large-then-small");
             let mut off = 0;
@@ -607,7 +704,7 @@ pub fn c19(o: &Opts, t: &mut Tracer) {
     // one transport buffer filled by appending: the room shrinks from call to call down to less than a chunk
     for (j, &cap) in [64usize, 100, 1000, 4200, 10300, 20600].iter().enumerate() {
         for shave in 0..8usize {
-            let mut w = start_case(t, APIS[(j + shave) % 2], kind, false, "append");
+            let mut w = start_case(t, APIS[(j + shave) % 2], kind, shave % 3 == 0, "append");
             t.sig(format!("append/{}/{}", cap, shave));
             let mut pos = 0;
             let mut off = 0;
@@ -639,7 +736,7 @@ pub fn c19(o: &Opts, t: &mut Tracer) {
             if kind != Kind::Chunked && outl > 22 {
                 continue;
             }
-            let mut w = start_case(t, APIS[j % 2], kind, false, "loop");
+            let mut w = start_case(t, APIS[j % 2], kind, j % 3 != 0, "loop");
             t.sig(format!("loop/{}/{:?}", outl, kind));
             let mut off = 0;
             let mut iters = 0;
